@@ -26,7 +26,10 @@ EXPLANATION = (
     "extension replicates the operand's msb target-current times, zero extension pads on the MSB side, truncation keeps the low "
     "bits (judged over a grid of target/operand widths); R-tr-width-cast -- numbers, free variables, loop variables, implicit "
     "temporaries and constant attributes are emitted with an explicit size taken from node.Type, loop indices are sized for the "
-    "largest value of the range; R-tr-conn -- each adjacency edge is attributed to the one hosting component (four-case relation "
+    "largest value of the range; the digits of every <W>'d<V> literal of a user-supplied Python int are int() of the value brought "
+    "into 0..2**W-1 on every path (text-building helpers such as sized_decimal are looked through and evaluated for a few (W, value)), "
+    "and a declared constant that can be negative is used as N'( $signed( name ) ) (sign/zero extension of the declared two's "
+    "complement evaluated against value mod 2**N); R-tr-conn -- each adjacency edge is attributed to the one hosting component (four-case relation "
     "evaluated over all host configurations), (writer, reader) orientation is kept down to `assign reader = writer`; "
     "R-tr-sigexpr -- connected signals are rebuilt attribute-then-indices-in-order, slice last; R-tr-for -- loop comparison and "
     "increment follow the sign of the step; R-tr-modname -- definition and instantiation use the same module name rule, per "
@@ -46,7 +49,7 @@ EXPLANATION = (
     "R-layout-agree -- struct literals / concat / struct construction put the first field (argument) most significant and "
     "packed-array element 0 least significant. "
     "NOT decided: cycle-for-cycle behavioural equivalence of arbitrary designs, syntactic validity of arbitrary emitted text "
-    "(e.g. negative literals), single-driver of the emitted text, the type checker's width inference itself (C10), placeholders.")
+    "(only the sized decimal literals are decided: digits from int(), two's complement of a negative value), single-driver of the emitted text, the type checker's width inference itself (C10), placeholders.")
 ASSUMPTIONS = [
     "IEEE-1800 two-state semantics of the operators in the reference table on equal-width unsigned operands; N'(x) keeps the low N bits / zero-extends",
     "the type checker (C10) gives both operands of a binary operator equal widths and sets node.Type to the width the simulation uses",
@@ -102,6 +105,7 @@ GEN1, GEN2 = T.GEN[1], T.GEN[2]
 TC2 = T.TC[2]
 VB1, VB2, VB3 = T.SV_B[1], T.SV_B[2], T.SV_B[3]
 VS1, VS2, VS3, VS4 = T.SV_S[1], T.SV_S[2], T.SV_S[3], T.SV_S[4]
+UTIL = 'pymtl3/passes/backends/verilog/util/utility.py'
 
 
 def _m(name, file, old, new, rule=None, count=1):
@@ -191,7 +195,6 @@ MUTANTS = [
     # re-introduction of the repaired defect (sext of an array element)
     _m('sext-index-always-one-bit', VB1, "      _one_bit = current_nbits == 1\n", "      _one_bit = True\n", 'R-tr-slice'),
     # R-tr-width-cast
-    _m('number-unsized', VB1, """return f"{nbits}'d{node.value}\"""", """return f"{node.value}\"""", 'R-tr-width-cast'),
     _m('freevar-unsized', VB1, """return f"{nbits}'( __const__{node.name} )\"""", """return f"__const__{node.name}\"""", 'R-tr-width-cast'),
     _m('tmpvar-cast-on-lhs', VB2, "if not node._is_explicit and not s.is_assign_LHS:", "if not node._is_explicit:", 'R-tr-width-cast'),
     _m('tmpvar-never-sized', VB2, "if not node._is_explicit and not s.is_assign_LHS:", "if False and not s.is_assign_LHS:",
@@ -200,8 +203,6 @@ MUTANTS = [
     _m('loopvar-unsized', VB2, """    return f"{nbits}'({node.name})\"""", "    return node.name", 'R-tr-width-cast'),
     _m('loop-width-from-last-value', TC2, "lvar_nbits = s._get_nbits_from_value(max(loop_range))",
        "lvar_nbits = s._get_nbits_from_value(loop_range[-1])", 'R-tr-width-cast'),
-    _m('number-sized-by-value', VB1, "    nbits = node.Type.get_dtype().get_length()\n    return f\"{nbits}'d{node.value}\"",
-       "    nbits = max(1, int(node.value).bit_length())\n    return f\"{nbits}'d{node.value}\"", 'R-tr-width-cast'),
     # R-tr-conn
     _m('edge-host-child-instead-of-parent', T.G_S1,
        "          elif writer_host_parent is reader_host:\n            _inst_conns[reader_host].add( ( u, v ) )",
@@ -276,21 +277,39 @@ MUTANTS = [
     _m('emitter-closure-reset-only-once', VB1, "    s.closure = {}\n\n    for i, var in enumerate( blk.__code__.co_freevars ):", "    if not hasattr( s, 'closure' ):\n      s.closure = {}\n\n    for i, var in enumerate( blk.__code__.co_freevars ):",
        'R-tr-block-state'),
     _m('number-literal-from-object', VB1, "    if hasattr( node, \"_value\" ):\n      # value could be larger", "    if hasattr( node, \"_value\" ) and False:\n      # value could be larger", 'R-tr-slice'),
-    # re-introductions of the defects repaired by c03_else_begin / c03_operand_parens_and_sext / c03_bool_literal
-    # (stale on a tree without those repairs)
+    # re-introductions of the repaired statement-grouping / parenthesisation / literal defects
     _m('else-begin-counts-ir-statements', VB2, "' begin' if s.count_stmts( node.orelse ) > 1 else ''", "' begin' if len( node.orelse ) > 1 else ''", 'R-tr-assign'),
+    _m('count-stmts-loop-ignores-chained-targets', VB2, "    return sum( len( stmt.targets ) if isinstance( stmt, bir.Assign ) else 1\n                for stmt in stmts )",
+       "    n_stmts = 0\n    for stmt in stmts:\n      n_stmts += 1\n    return n_stmts", 'R-tr-assign'),
+    _m('count-stmts-loop-returns-inside-the-loop', VB2, "    return sum( len( stmt.targets ) if isinstance( stmt, bir.Assign ) else 1\n                for stmt in stmts )",
+       "    n_stmts = 0\n    for stmt in stmts:\n      n_stmts += len( stmt.targets ) if isinstance( stmt, bir.Assign ) else 1\n      return n_stmts\n    return n_stmts", 'R-tr-assign'),
     _m('for-end-counts-ir-statements', VB2, "    if s.count_stmts( node.body ) > 1:\n      src.extend( [ 'end' ] )", "    if len( node.body ) > 1:\n      src.extend( [ 'end' ] )", 'R-tr-assign'),
     _m('reduce-operand-unparenthesised', VB1, "    value = s.visit_expr_wrap( node.value )\n    op = reduce_ops[ op_t ]", "    value = s.visit( node.value )\n    op = reduce_ops[ op_t ]", 'R-tr-optable'),
     _m('zext-identity-unparenthesised', VB1, "      # The operand itself takes the place of the extension\n      return s.visit_expr_wrap( node.value )\n    else:",
        "      # The operand itself takes the place of the extension\n      return s.visit( node.value )\n    else:", 'R-tr-slice'),
     _m('truncate-identity-unparenthesised', VB1, "      # The operand itself takes the place of the truncation\n      return s.visit_expr_wrap( node.value )",
        "      # The operand itself takes the place of the truncation\n      return s.visit( node.value )", 'R-tr-slice'),
-    _m('sext-of-expression-accepted', VB1, "    if isinstance( node.value, ( bir.BinOp, bir.UnaryOp, bir.IfExp, bir.Compare ) ):\n      # The sign bit",
-       "    if False and isinstance( node.value, ( bir.BinOp, bir.UnaryOp, bir.IfExp, bir.Compare ) ):\n      # The sign bit", 'R-tr-slice'),
-    _m('number-unsized-2', VB1, """return f"{nbits}'d{int(node.value)}\"""", """return f"{int(node.value)}\"""", 'R-tr-width-cast'),
-    _m('number-sized-by-value-2', VB1, "    nbits = node.Type.get_dtype().get_length()\n    return f\"{nbits}'d{int(node.value)}\"",
-       "    nbits = max(1, int(node.value).bit_length())\n    return f\"{nbits}'d{int(node.value)}\"", 'R-tr-width-cast'),
-    _m('number-literal-without-int', VB1, "'d{int(node.value)}", "'d{node.value}", 'R-tr-width-cast'),
+    _m('number-unsized-2', VB1, "    return sized_decimal( nbits, node.value )", "    return f\"{int(node.value)}\"", 'R-tr-width-cast'),
+    _m('number-sized-by-value-2', VB1, "    nbits = node.Type.get_dtype().get_length()\n    return sized_decimal( nbits, node.value )",
+       "    nbits = max(1, int(node.value).bit_length())\n    return sized_decimal( nbits, node.value )", 'R-tr-width-cast'),
+    # the arithmetic sign extension of an expression operand  ( ( {pad{1'b0}, x} ^ N'dM ) - N'dM ),  M = weight of x's msb
+    _m('sext-arith-sign-weight-one-bit-too-high', VB1, "      sign = f\"{target_nbits}'d{1 << last_bit}\"", "      sign = f\"{target_nbits}'d{1 << current_nbits}\"", 'R-tr-slice'),
+    _m('sext-arith-sign-weight-from-target', VB1, "      sign = f\"{target_nbits}'d{1 << last_bit}\"", "      sign = f\"{target_nbits}'d{1 << (target_nbits - 1)}\"", 'R-tr-slice'),
+    _m('sext-arith-adds-the-sign-weight', VB1, "^ {sign} ) - {sign} )\"", "^ {sign} ) + {sign} )\"", 'R-tr-slice'),
+    _m('sext-arith-pads-target-bits', VB1, "      return f\"( ( {{ {{ {padded_nbits} {{ 1'b0 }} }}, {value} }} ^ {sign} ) - {sign} )\"",
+       "      return f\"( ( {{ {{ {target_nbits} {{ 1'b0 }} }}, {value} }} ^ {sign} ) - {sign} )\"", 'R-tr-slice'),
+    _m('sext-expression-falls-to-bit-select', VB1, "    if isinstance( node.value, ( bir.IfExp, bir.UnaryOp, bir.BinOp, bir.Compare ) ):\n      # The msb of an expression",
+       "    if isinstance( node.value, ( bir.IfExp, bir.UnaryOp, bir.Compare ) ):\n      # The msb of an expression", 'R-tr-slice'),
+    _m('number-literal-without-int', UTIL, "  value = int( value )\n  if value < 0:\n    value += 1 << nbits\n", "  if value < 0:\n    value += 1 << nbits\n", 'R-tr-width-cast'),
+    # negative Python ints: <W>'d-1 is not Verilog; the literal holds the two's complement, the use of a declared constant sign-extends
+    _m('literal-helper-without-wrap', UTIL, "  value = int( value )\n  if value < 0:\n    value += 1 << nbits\n", "  value = int( value )\n", 'R-tr-width-cast'),
+    _m('literal-helper-wraps-at-half-range', UTIL, "    value += 1 << nbits\n", "    value += 1 << (nbits-1)\n", 'R-tr-width-cast'),
+    _m('literal-helper-wraps-non-negative-too', UTIL, "  if value < 0:\n    value += 1 << nbits\n", "  if value <= 0:\n    value += 1 << nbits\n", 'R-tr-width-cast'),
+    _m('number-back-to-plain-int', VB1, "    return sized_decimal( nbits, node.value )", "    return f\"{nbits}'d{int(node.value)}\"", 'R-tr-width-cast'),
+    _m('structural-literal-back-to-plain-int', VS1, "  def _literal_number( s, nbits, value ):\n    return sized_decimal( nbits, value )", "  def _literal_number( s, nbits, value ):\n    return f\"{nbits}'d{int(value)}\"", 'R-tr-width-cast'),
+    _m('negative-constant-use-zero-extended', VB1, "      return f\"{nbits}'( $signed( __const__{node.name} ) )\"", "      return f\"{nbits}'( __const__{node.name} )\"", 'R-tr-width-cast'),
+    _m('every-int-constant-use-sign-extended', VB1, "    if isinstance( node.obj, int ) and node.obj < 0:\n      # The constant is declared", "    if isinstance( node.obj, int ):\n      # The constant is declared", 'R-tr-width-cast'),
+    _m('sizecast-constant-not-wrapped', VB1, "      value = int(Bits(nbits, node._value))", "      value = int(node._value)", 'R-tr-slice'),
     # R-tr-index-queue
     _m('index-base-visited-before-index', VB1, "    idx   = s.visit( node.idx )\n    value = s.visit( node.value )\n    Type = node.value.Type",
        "    value = s.visit( node.value )\n    idx   = s.visit( node.idx )\n    Type  = node.value.Type", 'R-tr-index-queue'),
@@ -338,8 +357,22 @@ MUTANTS = [
 ]
 
 EQUIV = [
-    _m('number-width-via-local-dtype-2', VB1, "    nbits = node.Type.get_dtype().get_length()\n    return f\"{nbits}'d{int(node.value)}\"",
-       "    dt = node.Type.get_dtype()\n    return f\"{dt.get_length()}'d{int(node.value)}\""),
+    _m('count-stmts-as-accumulator-loop', VB2, "    return sum( len( stmt.targets ) if isinstance( stmt, bir.Assign ) else 1\n                for stmt in stmts )",
+       "    n_stmts = 0\n    for stmt in stmts:\n      if isinstance( stmt, bir.Assign ):\n        n_stmts += len( stmt.targets )\n      else:\n        n_stmts += 1\n    return n_stmts"),
+    _m('sext-arith-sized-by-operand-width', VB1, "      sign = f\"{target_nbits}'d{1 << last_bit}\"", "      sign = f\"{current_nbits}'d{1 << last_bit}\""),
+    _m('sext-arith-operand-bare', VB1, "      return f\"( ( {{ {{ {padded_nbits} {{ 1'b0 }} }}, {value} }} ^ {sign} ) - {sign} )\"",
+       "      return f\"( ( {value} ^ {sign} ) - {sign} )\""),
+    _m('sext-arith-sign-weight-via-power', VB1, "      sign = f\"{target_nbits}'d{1 << last_bit}\"", "      sign = f\"{target_nbits}'d{2 ** last_bit}\""),
+    _m('sext-arith-xor-operands-swapped', VB1, "      return f\"( ( {{ {{ {padded_nbits} {{ 1'b0 }} }}, {value} }} ^ {sign} ) - {sign} )\"",
+       "      return f\"( ( {sign} ^ {{ {{ {padded_nbits} {{ 1'b0 }} }}, {value} }} ) - {sign} )\""),
+    _m('number-width-via-local-dtype-2', VB1, "    nbits = node.Type.get_dtype().get_length()\n    return sized_decimal( nbits, node.value )",
+       "    dt = node.Type.get_dtype()\n    return sized_decimal( dt.get_length(), node.value )"),
+    _m('literal-helper-wraps-by-modulo', UTIL, "  if value < 0:\n    value += 1 << nbits\n", "  value %= 1 << nbits\n"),
+    _m('literal-helper-wraps-by-power-of-two', UTIL, "  if value < 0:\n    value += 1 << nbits\n", "  if value < 0:\n    value = value + 2**nbits\n"),
+    _m('literal-helper-wraps-by-mask', UTIL, "  value = int( value )\n  if value < 0:\n    value += 1 << nbits\n", "  value = int( value ) & ((1 << nbits) - 1)\n"),
+    _m('literal-helper-wraps-via-bits', UTIL, "  value = int( value )\n  if value < 0:\n    value += 1 << nbits\n", "  from pymtl3.datatypes import Bits\n  value = int( Bits( nbits, value ) )\n"),
+    _m('number-inlines-the-helper', VB1, "    return sized_decimal( nbits, node.value )", "    value = int( node.value )\n    if value < 0:\n      value += 1 << nbits\n    return f\"{nbits}'d{value}\""),
+    _m('negative-constant-test-on-local', VB1, "    if isinstance( node.obj, int ) and node.obj < 0:\n      # The constant is declared", "    obj = node.obj\n    if isinstance( obj, int ) and obj < 0:\n      # The constant is declared"),
     _m('range-defaults-assigned-first', GEN2, "    if len( args ) == 1:\n      # range( end )\n      start = bir.Number( 0 )\n      end = s.visit( args[0] )\n      step = bir.Number( 1 )\n",
        "    start, step = bir.Number( 0 ), bir.Number( 1 )\n    if len( args ) == 1:\n      # range( end )\n      end = s.visit( args[0] )\n"),
     _m('closure-created-by-dict-call', GEN1, "    s.closure = {}\n\n    for i, var in enumerate( blk.__code__.co_freevars ):", "    s.closure = dict()\n\n    for i, var in enumerate( blk.__code__.co_freevars ):"),
@@ -401,8 +434,6 @@ EQUIV = [
        "  def rtlir_tr_part_selection( s, base_signal, start, stop, status ):\n    # Part selection\n    lsb = start\n"),
     _m('partition-as-conjunction', T.RUTIL, "return [ x for x in m.get_update_block_order() if x in upblks ]",
        "return [ x for x in m.get_update_block_order() if x in m.get_update_blocks() and x not in m.get_update_ff() ]"),
-    _m('number-width-via-local-dtype', VB1, "    nbits = node.Type.get_dtype().get_length()\n    return f\"{nbits}'d{node.value}\"",
-       "    dt = node.Type.get_dtype()\n    return f\"{dt.get_length()}'d{node.value}\""),
 ]
 
 LEVEL_TEXT = ("Static analysis of the translator source: statically linked translator classes (class factories resolved, C3 MRO), "
